@@ -56,6 +56,17 @@ func (g *gen) callGraph() {
 		if withParam {
 			param, argv, argrec = "n int", "1", "n - 1"
 		}
+		// an iterator group: every function is a push iterator, and edges may be range statements
+		iter := g.chance(25, "itergroup")
+		if iter {
+			g.feat("cg_iterator_group")
+			withParam = false
+			param, argv, argrec = "yield func(int) bool", "func(int) bool { return true }", "yield"
+			for i := range results {
+				results[i] = nil
+			}
+			common = nil
+		}
 		var sb strings.Builder
 		callOf := func(j int, arg string) string { return names[j] + "(" + arg + ")" }
 		cyclic := false
@@ -68,6 +79,15 @@ func (g *gen) callGraph() {
 					cyclic = true
 				}
 				c := callOf(j, argrec)
+				if iter && g.chance(60, "rangeedge") {
+					// recorded finding: the implicit call of a range-over-func loop has no position, and an
+					// unconditional self call is reported at that position; excluded by not ranging over self
+					if j != i || g.include("range-over-func-call-without-position") {
+						g.feat("cg_range_over_func_edge")
+						lines = append(lines, pick(g, "rangeedge", "for range "+names[j]+" {\n\t}", "for x := range "+names[j]+" {\n\t\t_ = x\n\t}", "for x := range "+names[j]+" {\n\t\tif !yield(x) {\n\t\t\treturn\n\t\t}\n\t}", "for range "+names[j]+" {\n\t\tbreak\n\t}"))
+						continue
+					}
+				}
 				switch g.intn(0, 7, "edgeform") {
 				case 0, 1, 2:
 					lines = append(lines, c) // unconditional
